@@ -136,7 +136,7 @@ def char_class(c):
     return "non-ascii"
 
 
-def check_tokens(prop, text, keep_padding, res, exc, over_budget=False):
+def check_tokens(prop, text, keep_padding, res, exc, over_budget=False, funcs=None):
     """Decide one tokenize() call (C11)."""
     rec = core.REC
     rec.ev()
@@ -153,7 +153,7 @@ def check_tokens(prop, text, keep_padding, res, exc, over_budget=False):
         bad("tok/step-budget", "tokenize does not terminate within its logical step budget", "budget exceeded")
         return
     try:
-        ref = G.ref_tokenize(text, keep_padding)
+        ref = G.ref_tokenize(text, keep_padding, funcs)
         ref_err = None
     except G.BadChar as e:
         ref, ref_err = None, e
@@ -204,22 +204,26 @@ def attach_tokenizer(prop="C11", with_budget=True):
         if not isinstance(buffer, str):
             return orig(self, buffer, *a, **k)
         keep = not bool(self.exclude_padding)
+        try:
+            funcs = set(self.functions)   # the names registered on THIS instance right now
+        except Exception:
+            funcs = None
         if b is not None and b.ok:
             b.start(step_limit(buffer))
         try:
             res = orig(self, buffer, *a, **k)
         except BudgetExceeded:
             b.stop()
-            check_tokens(prop, buffer, keep, None, None, over_budget=True)
+            check_tokens(prop, buffer, keep, None, None, over_budget=True, funcs=funcs)
             raise ValueError("vmon: step budget exceeded in tokenize")
         except BaseException as e:
             if b is not None:
                 b.stop()
-            check_tokens(prop, buffer, keep, None, e)
+            check_tokens(prop, buffer, keep, None, e, funcs=funcs)
             raise
         if b is not None:
             b.stop()
-        check_tokens(prop, buffer, keep, res, None)
+        check_tokens(prop, buffer, keep, res, None, funcs=funcs)
         return res
 
     contracts.attach(Tokenizer, "tokenize", around=around)
@@ -331,7 +335,7 @@ def decide(prop, checks, parser, text, res, exc, over, hist, steps):
     out = impl_outcome(res, exc)
     w = {"text": text, "impl": out if exc is None else f"{out}: {type(exc).__name__}: {str(exc)[:120]}"}
     if hist is not None:
-        w["history"] = list(hist)[-400:]
+        w["history"] = list(hist)[-3000:]
 
     def bad(key, what, got):
         w2 = dict(w)
@@ -499,7 +503,7 @@ def attach_parser_tokenize(prop="C12"):
             fresh = ExpressionParser().tokenize(text)
         except BaseException as e:
             fexc = e
-        w = {"text": text, "history": list(hist)[-400:]}
+        w = {"text": text, "history": list(hist)[-3000:]}
         if (exc is None) != (fexc is None) or (exc is not None and type(exc) is not type(fexc)):
             w["summary"] = f"tokenize({text!r}) used: {type(exc).__name__ if exc else 'ok'} fresh: {type(fexc).__name__ if fexc else 'ok'}"
             rec.violation(prop, "history/tokenize-outcome", "a used parser tokenizes differently from a fresh parser", w)
